@@ -25,7 +25,7 @@
    Since /repo f4a117d every link is preceded by the guarded removal, so link_step only ever sees an
    existing path after _remove returned early - the "existing path" branches are kept for fidelity. *)
 From Coq Require Import NArith List Bool.
-From DvcData Require Import Base.Val Base.PyBase Gen.PyTypes Gen.ODiff Gen.Relink.
+From DvcData Require Import Base.Val Base.PyBase Gen.PyTypes Gen.ODiff Gen.Relink Gen.ObjCheckout.
 Import ListNotations.
 Open Scope N_scope.
 
@@ -68,9 +68,12 @@ Definition ws_put (k : key) (x : option fnode) (w : ws) : ws :=
 
 (* ---------------------------------------------------------------- deciders *)
 
-(* checkout.py:51 _remove : guard -> action *)
+(* checkout.py:51 _remove : guard -> action.
+   The decider the model RUNS is read off the generated action list (Gen.ObjCheckout.gen_remove,
+   regenerated from the source on every run); [remove_guard_spec] is the hand-written reading the
+   proofs reason about, tied to it by Proofs/ObjCoTie.v (remove_guard_eq). *)
 Inductive rm_act := RmSkip | RmRaise | RmRemove.
-Definition remove_guard (force in_cache exists_ : bool) (answer : option bool) : rm_act :=
+Definition remove_guard_spec (force in_cache exists_ : bool) (answer : option bool) : rm_act :=
   if negb force && negb in_cache then
     if negb exists_ then RmSkip
     else match answer with
@@ -78,8 +81,16 @@ Definition remove_guard (force in_cache exists_ : bool) (answer : option bool) :
          | Some a => if negb a then RmRaise else RmRemove
          end
   else RmRemove.
+Definition is_raise (a : oc_act) : bool := match a with ARaisePrompt => true | _ => false end.
+Definition is_rm (a : oc_act) : bool := match a with ARemove => true | _ => false end.
+Definition rm_of_acts (l : list oc_act) : rm_act :=
+  if existsb is_raise l then RmRaise else if existsb is_rm l then RmRemove else RmSkip.
+Definition remove_guard (force in_cache exists_ : bool) (answer : option bool) : rm_act :=
+  rm_of_acts (gen_remove force in_cache exists_ answer).
 
-(* checkout.py:95 _checkout_file : decision tree -> action *)
+(* checkout.py:95 _checkout_file : decision tree -> action.  Same arrangement: the model runs
+   [cf_of_acts (gen_checkout_file ...)] (with _relink's generated body expanded in place);
+   [cf_decide] is the hand-written reading, tied by Proofs/ObjCoTie.v (cf_gen_eq). *)
 Inductive cf_act := CfLink | CfUnprotect | CfRelink.
 Definition cf_decide (has_old relink file_is_copy same_oid cache_is_copy : bool) : cf_act :=
   if has_old then
@@ -87,6 +98,21 @@ Definition cf_decide (has_old relink file_is_copy same_oid cache_is_copy : bool)
       if file_is_copy && same_oid && cache_is_copy then CfUnprotect else CfRelink
     else CfRelink
   else CfLink.
+Definition gsubst (s : gsrc) (a : oc_act) : oc_act := match a with AGuard GArg => AGuard s | x => x end.
+Definition expand_acts (l : list oc_act) : list oc_act :=
+  flat_map (fun a => match a with ARelink s => map (gsubst s) gen_relink | x => [x] end) l.
+(* the three action sequences the model gives a meaning to:
+     cache.unprotect(path)                                        CfUnprotect
+     _remove(.., change.old.in_cache, ..); link(..); protect(..)  CfRelink
+     _remove(.., False, ..); link(..)                             CfLink      (since f4a117d)
+   anything else is None: the step is treated as a failure and the tie lemma no longer holds *)
+Definition cf_of_acts (l : list oc_act) : option cf_act :=
+  match expand_acts l with
+  | [AUnprotect] => Some CfUnprotect
+  | [AGuard GOld; ALink; AProtect] => Some CfRelink
+  | [AGuard GFalse; ALink] => Some CfLink
+  | _ => None
+  end.
 
 (* ---------------------------------------------------------------- metas, entries, changes *)
 
@@ -218,9 +244,12 @@ Definition link_step (g : cfg) (c : cache) (o : oid) (cur : option fnode) : fres
       end
   end.
 
-Definition file_is_copy (ch : ochange_args) : bool :=
+(* fs.iscopy(path) = not (is_symlink or is_hardlink) of the path as it is *)
+Definition iscopy (cur : option fnode) : bool :=
+  match cur with Some n => negb (f_link n) && N.eqb (f_nlink n) 1 | None => true end.
+Definition file_is_copy (ch : ochange_args) (cur : option fnode) : bool :=
   match t_meta (c_old ch) with
-  | None => true
+  | None => iscopy cur
   | Some m => negb (m_is_link m) && N.eqb (m_nlink m) 1
   end.
 Definition cache_is_copy (g : cfg) : bool :=
@@ -233,13 +262,24 @@ Definition post_info (r : fres) : fres :=
   | _ => r
   end.
 
+(* the generated _checkout_file on the abstract arguments of this change *)
+Definition cf_gen (g : cfg) (ch : ochange_args) (cur : option fnode) : option cf_act :=
+  cf_of_acts (gen_checkout_file
+                (truthy_oid (c_old ch)) (g_relink g)
+                (negb (is_some (t_meta (c_old ch)))) (iscopy cur)
+                (match t_meta (c_old ch) with Some m => m_is_link m | None => false end)
+                (match t_meta (c_old ch) with Some m => N.eqb (m_nlink m) 1 | None => false end)
+                (opt_eqb hashinfo_eqb (t_oid (c_new ch)) (t_oid (c_old ch))) (cache_is_copy g)).
+
 Definition file_step (g : cfg) (c : cache) (ch : ochange_args) (cur : option fnode) : fres :=
   match new_oid ch with
   | None => FFail cur
   | Some o =>
+      match cf_gen g ch cur with
+      | None => FFail cur
+      | Some act =>
       post_info
-        match cf_decide (truthy_oid (c_old ch)) (g_relink g) (file_is_copy ch)
-                        (opt_eqb hashinfo_eqb (t_oid (c_new ch)) (t_oid (c_old ch))) (cache_is_copy g) with
+        match act with
         | CfLink => (* since f4a117d: an existing path without an old entry is guarded as "not in cache" *)
                     match guard_step g (ch_key ch) false cur with
                     | None => FPrompt
@@ -251,6 +291,7 @@ Definition file_step (g : cfg) (c : cache) (ch : ochange_args) (cur : option fno
                       | Some cur1 => link_step g c o cur1
                       end
         end
+      end
   end.
 
 (* ---------------------------------------------------------------- the two loops of _checkout *)
@@ -337,6 +378,36 @@ Definition checkout (g : cfg) (c : cache) (w : ws) (tgt : list (key * oid)) (ord
                       (if g_state g then Some (link_record unchanged (s_upd s)) else None)
         end
     end.
+
+(* ---------------------------------------------------------------- single-file targets *)
+(* The target is a file object (HashFile): the only key is ROOT = ("",), checked out at the path
+   itself.  hashfile/diff.py gives the ROOT entry NO meta (diff._get returns (None, hash_info)), so
+   _determine_files_to_relink always re-links it and _checkout_file asks fs.iscopy(path); the link
+   record is the path's own mtime (utils._get_mtime_from_changes, type "file").  [cur] is the path
+   as it is (None = absent); a dangling link cannot be staged (old = None). *)
+Definition root_key : key := [[]].
+Definition mk_change1 (c : cache) (cur : option fnode) (o : oid) : ochange_args :=
+  let oo := match cur with
+            | Some n => if f_broken n then None else Some (H (f_bytes n))
+            | None => None
+            end in
+  mk_ochange_args
+    (mk_tentry (match oo with Some x => cache_check c x | None => None end) root_key None (option_map hi oo))
+    (mk_tentry (cache_check c o) root_key None (Some (hi o))).
+Definition put1 (x : option fnode) : ws := ws_put root_key x [].
+Definition rec1 (g : cfg) (x : option fnode) : option (list (key * N)) :=
+  if g_state g then Some [(root_key, mtime_of x)] else None.
+Definition checkout1 (g : cfg) (c : cache) (cur : option fnode) (o : oid) : result :=
+  let ch := mk_change1 c cur o in
+  if typ_is ochange_UNCHANGED ch && negb (extra_modified g ch) then
+    mk_result ONothing (put1 cur) c (if g_relink g then rec1 g cur else None)
+  else if is_nil (g_links g) then mk_result OLink (put1 cur) c None
+  else match file_step g c ch cur with
+       | FPrompt => mk_result (OPrompt root_key) (put1 cur) c None
+       | FNotFound x => mk_result (ONotFound root_key) (put1 x) c None
+       | FFail x => mk_result (OFailed [root_key]) (put1 x) c (rec1 g x)
+       | FOk x => mk_result (ODone (negb (g_relink g))) (put1 x) c (rec1 g x)
+       end.
 
 End WithH.
 
@@ -505,8 +576,19 @@ Definition run_in (i : co_in) : result :=
                    (i_types i) (i_links i) (i_state i) (i_now i))
            (i_cache i) (i_ws i) (i_target i) (i_order i).
 
+(* single-file targets through the same input record: the path is the ROOT entry of i_ws / i_target *)
+Definition run_in1 (i : co_in) : result :=
+  checkout1 (H_tab (i_htab i))
+            (mk_cfg (i_force i) (i_relink i)
+                    (option_map (fun yes k => kmem k yes) (i_prompt i))
+                    (i_types i) (i_links i) (i_state i) (i_now i))
+            (i_cache i) (kassoc root_key (i_ws i))
+            (match kassoc root_key (i_target i) with Some o => o | None => [] end).
+
 (* decider tables for the enumeration against the real _remove / _checkout_file *)
 Definition enc_rm_act (a : rm_act) : val := VN (match a with RmSkip => 0 | RmRaise => 1 | RmRemove => 2 end).
+Definition enc_cf_opt (a : option cf_act) : val :=
+  match a with None => VN 99 | Some CfLink => VN 0 | Some CfUnprotect => VN 1 | Some CfRelink => VN 2 end.
 Definition enc_cf_act (a : cf_act) : val := VN (match a with CfLink => 0 | CfUnprotect => 1 | CfRelink => 2 end).
 
 (* links world *)
